@@ -1,2 +1,6 @@
 //! Shared helpers of the correspondence harness.
 pub mod util;
+pub mod broker_support;
+pub mod compress_support;
+pub mod route_support;
+pub mod proto_support;
